@@ -23,7 +23,7 @@ func init() {
 		Rule: "one run = N searches pipelined on one connection (N in {2,8,64}; up to 512 in thorough); each handler first joins a barrier that opens only when all N handlers have entered " +
 			"(simultaneity is proven, not assumed), then writes K entries with unique ids (h=<message id>,j=<seq>) whose payload is a function of (h,j,len), len cycling through {3,100,5000,70000} " +
 			"(below/above the 4096-byte write buffer), then SearchDone; every Write result is logged. Runs cover plain / TLS-listener / StartTLS-upgraded transports x eager / back-pressure reading x GOMAXPROCS {1,2,4,16}, " +
-			"under the race detector. Oracle: strict incremental parse; multiset of ids == set of successful writes; per-writer order; payload check. " +
+			"under the race detector; plus thousands of small bursts (2..4 writers, then silence) on one long-lived connection, where every frame of a burst must arrive before the client sends anything else. Oracle: strict incremental parse; multiset of ids == set of successful writes; per-writer order; payload check. " +
 			"distinct_nontrivial = distinct cross-writer interleaving signatures (order of writer ids in the received stream) with at least one cross-writer switch",
 		Assume: []string{"the client-side parser (internal/sber) is strict and independent of asn1-ber"},
 		Phases: func(tier string, seed int64) []Phase {
@@ -37,7 +37,7 @@ func init() {
 			}
 			return ps
 		},
-		MinObserved: []string{"frames_checked", "cross_writer_switches", "barrier_openings"},
+		MinObserved: []string{"frames_checked", "cross_writer_switches", "barrier_openings", "bursts_fully_answered_without_further_traffic"},
 	})
 }
 
@@ -315,9 +315,92 @@ func c05One(c *Ctx, pki *PKI, cfg c05Cfg, r *Rand) {
 	}
 }
 
+// c05Bursts: thousands of small bursts of 2..4 concurrent writers on one long-lived connection, each followed by
+// silence. A frame whose Write returned nil must arrive without any further traffic: after a burst the client waits
+// (bounded progress, B = 5s) for every frame of that burst before it sends anything else.
+func c05Bursts(c *Ctx, r *Rand, bursts int) {
+	var okWrites atomic.Int64
+	srv, err := startSrv(SrvCfg{}, func(m *gldap.Mux) {
+		m.Search(func(w *gldap.ResponseWriter, req *gldap.Request) {
+			sm, err := req.GetSearchMessage()
+			if err != nil {
+				return
+			}
+			e := req.NewSearchResponseEntry(fmt.Sprintf("h=%d,j=0", sm.GetID()))
+			e.AddAttribute("p", []string{string(c05Payload(sm.GetID(), 0, 40))})
+			if w.Write(e) == nil {
+				okWrites.Add(1)
+			}
+			if w.Write(req.NewSearchDoneResponse(gldap.WithResponseCode(0))) == nil {
+				okWrites.Add(1)
+			}
+		})
+	})
+	if err != nil {
+		c.Inconclusive("server start: " + err.Error())
+		return
+	}
+	defer srv.StopWithin(patience)
+	cl, err := dialRaw(srv.Addr, nil)
+	if err != nil {
+		c.Inconclusive("dial: " + err.Error())
+		return
+	}
+	defer cl.Close()
+	id := int64(1)
+	for b := 0; b < bursts; b++ {
+		n := 2 + r.Intn(3)
+		var all []byte
+		want := map[int64]int{}
+		for i := 0; i < n; i++ {
+			id++
+			want[id] = 2
+			all = append(all, sber.Message(id, sber.Search{Base: []byte("dc=x"), Scope: 2, Filter: sber.PresentFilter("objectClass"), Attrs: [][]byte{}}.Node(), nil).Encode()...)
+		}
+		cl.Send(all)
+		got := 0
+		for got < 2*n {
+			m, err := cl.ReadMsg(5 * time.Second)
+			if err != nil {
+				if !isTimeout(err) {
+					c.Violate("byte stream is not a concatenation of whole LDAPMessages", "burst mode: "+err.Error(), map[string]any{"burst": b})
+					return
+				}
+				// B expired with the connection silent: is the frame stranded until later traffic?
+				missing := 2*n - got
+				id++
+				cl.Send(sber.Message(id, sber.Search{Base: []byte("dc=x"), Scope: 2, Filter: sber.PresentFilter("objectClass"), Attrs: [][]byte{}}.Node(), nil).Encode())
+				late := 0
+				for {
+					m2, err := cl.ReadMsg(5 * time.Second)
+					if err != nil {
+						break
+					}
+					if want[m2.ID] > 0 {
+						want[m2.ID]--
+						late++
+					}
+				}
+				c.Violate("frame withheld or lost although its Write returned nil", fmt.Sprintf("burst %d of %d writers: %d of %d frames had not arrived 5s after the burst while the connection was silent (%d successful writes so far); %d of them arrived only after a later request caused more writes", b, n, missing, 2*n, okWrites.Load(), late),
+					map[string]any{"burst": b, "writers": n, "missing": missing, "arrived_after_later_traffic": late})
+				return
+			}
+			if want[m.ID] <= 0 {
+				c.Violate("frame duplicated", fmt.Sprintf("burst mode: message id %d", m.ID), nil)
+				return
+			}
+			want[m.ID]--
+			got++
+			c.Count("frames_checked", 1)
+		}
+		c.Count("bursts_fully_answered_without_further_traffic", 1)
+	}
+}
+
 func c05Run(c *Ctx) {
 	pki := newPKI()
 	r := c.Rng
+	c05Bursts(c, r.Sub("bursts"), c.N(4000, 60000))
 	ns := []int{2, 8, 64}
 	k := 6
 	reps := 1
